@@ -108,10 +108,13 @@ func (r *DefaultReader) acquireSlow(n int) int {
 		r.buf = r.buf[:len(r.buf)+m]
 		if err != nil {
 			r.err = err
-			return len(r.buf) - r.ri
 		}
 		if n <= len(r.buf)-r.ri {
+			// never report more than requested, even if the error came with surplus data
 			return n
+		}
+		if err != nil {
+			return len(r.buf) - r.ri
 		}
 	}
 	return len(r.buf) - r.ri
